@@ -32,24 +32,49 @@ def main():
         "DNS configurations the loader accepts (forward route without servers / with an empty list / without type, no routes, routes "
         "without suffixes, odd suffixes, null fields, unreachable IPv6 upstream, empty ACL list) served by the real erbium-dns: every "
         "query (UDP and TCP, names under and outside the odd routes) must be answered with some response code, no panic on stderr, "
-        "process alive; distinct = (configuration, transport, rcode)", floor=20)
+        "process alive; plus configuration FILES given as octets (endings inside a UTF-8 character, invalid octets, NUL, BOM, CR LF, empty): started or refused, never a panic; distinct = (configuration, transport, rcode)", floor=20)
     d = base.scratch_dir("c19")
     ups = []
     try:
         base.setup_loopback(v6=["fd00::1"])
         ups.append(dnslib.Upstream("127.0.1.1", lambda qn, proto, nth, q: [("reply", dnslib.build_reply(q, answers=[(qn, 1, 0, bytes([10, 1, 9, 1]))]), 0)], name="u1"))
+        # ---- configuration FILES as octets (the file reader sits in front of the loader the in-process leg drives): endings
+        # inside a UTF-8 character, invalid octets, NUL, a byte-order mark, CR LF, no final newline, an empty file
+        good = (HEAD + CONFIGS[0][1]).encode()
+        files = [("ends-after-lead-octet-c3", good + b"# caf\xc3"), ("ends-after-2-of-3", good + b"# \xe2\x82"), ("ends-after-3-of-4", good + b"# \xf0\x9f\x98"),
+                 ("ends-after-lead-octet-f4", good + b"\xf4"), ("invalid-octet-ff-inside", good[:40] + b"\xff" + good[40:]), ("continuation-octet-alone", good + b"# \x80\n"),
+                 ("nul-inside", good[:30] + b"\x00" + good[30:]), ("byte-order-mark", b"\xef\xbb\xbf" + good), ("crlf", good.replace(b"\n", b"\r\n")),
+                 ("no-final-newline", good.rstrip(b"\n")), ("empty", b""), ("only-a-lead-octet", b"\xe2"), ("overlong-encoding", good + b"# \xc0\xaf\n")]
+        for (fname, octets) in files:
+            cp = os.path.join(d, "file-%s.conf" % fname)
+            open(cp, "wb").write(octets)
+            p = base.Proc("erbium-dns", [os.path.join(base.BIN, "erbium-dns"), cp], d, rust_log="error")
+            try:
+                up = False
+                t_end = time.monotonic() + 4.0
+                while time.monotonic() < t_end and p.alive() and not up:
+                    up = dnslib.wait_port("127.0.0.53", 53, timeout=0.3)
+                time.sleep(0.1)
+                leg.eval()
+                pan = p.panics()
+                leg.cls("file|%s|%s" % (fname, "panic" if pan else ("served" if up else "rejected")))
+                if pan:
+                    leg.violation("C19/e2e/config-file-octets-panic-the-loader/%s" % fname, pan[0].strip(), {"engine": "c19-e2e", "file_hex_tail": octets[-24:].hex(), "file": fname})
+            finally:
+                p.stop()
         for (cname, body) in CONFIGS:
             cp = os.path.join(d, "%s.conf" % cname)
             open(cp, "w").write(HEAD + body)
             p = base.Proc("erbium-dns", [os.path.join(base.BIN, "erbium-dns"), cp], d, rust_log="error")
             try:
                 if not dnslib.wait_port("127.0.0.53", 53, timeout=6.0):
-                    if "Failed to load config" in p.text() or "Invalid Configuration" in p.text():
-                        leg.count("configs_rejected_by_loader", 1)
-                        leg.cls("%s|rejected" % cname)
-                        continue
                     if p.panics():
                         leg.violation("C19/e2e/panic-at-startup/%s" % cname, p.panics()[0], {"engine": "c19-e2e", "config": HEAD + body})
+                        continue
+                    if not p.alive() or "Failed to load config" in p.text() or "Invalid Configuration" in p.text():
+                        # the process gave up without panicking: the loader said no (whatever words it used)
+                        leg.count("configs_rejected_by_loader", 1)
+                        leg.cls("%s|rejected" % cname)
                         continue
                     leg.inconclusive("erbium-dns neither started nor rejected %s: %s" % (cname, p.text()[-200:]))
                     continue
